@@ -104,12 +104,31 @@ func lifecycle(args []string) {
 			} else {
 				sample = units
 			}
+			// files outside the example directories (adversarial corpus: only a package clause, no imports, ...) are
+			// always predecessors, and targets after the checker's own first file
+			var ownerless []*hx.Unit
+			isName := map[string]bool{}
+			for _, n := range hx.Infos() {
+				isName[n.Name] = true
+			}
+			for d, us := range own {
+				if !isName[d] {
+					ownerless = append(ownerless, us...)
+				}
+			}
+			sort.Slice(ownerless, func(i, j int) bool { return ownerless[i].ID < ownerless[j].ID })
 			for _, c := range names {
 				one := []string{c}
 				gs := append([]*hx.Unit{}, own[c]...)
+				gs = append(gs, ownerless...)
+				if len(own[c]) > 0 {
+					for _, f := range ownerless {
+						plan = append(plan, step{own[c][0], one}, step{f, one})
+					}
+				}
 				for _, g := range sample {
 					dup := false
-					for _, o := range own[c] {
+					for _, o := range gs {
 						dup = dup || o == g
 					}
 					if !dup {
